@@ -7,6 +7,7 @@ import (
 	"github.com/tdewolff/canvas"
 
 	"verifharness/internal/cq"
+	"verifharness/internal/gen"
 	"verifharness/internal/out"
 	"verifharness/internal/pd"
 	"verifharness/internal/rng"
@@ -55,6 +56,64 @@ func arcCase(o *out.W, i int, r *rng.R, probe bool, stats map[string]*stat) {
 	} else {
 		ellipseCase(o, i, r)
 	}
+	xarcCase(o, i, r)
+}
+
+// xarcCase: xmonotoneEllipticArc on one arc with exact geometry (gen.Arc); the returned arcs are judged in Coq (Corr.C03.judge_xarc)
+func xarcCase(o *out.W, i int, r *rng.R) {
+	sx, sy := float64(r.Range(-40, 40))/4, float64(r.Range(-40, 40))/4
+	a := gen.Arc(r, sx, sy, r.Intn(3))
+	ref := &canvas.Path{}
+	ref.MoveTo(a.Sx, a.Sy)
+	ref.ArcTo(a.Rx, a.Ry, a.RotDeg, a.Large, a.Sweep, a.Ex, a.Ey)
+	d := ref.Data()
+	if len(d) != 12 || d[4] != canvas.ArcToCmd {
+		return
+	}
+	phi := d[7] // as stored by ArcTo (radians, canonical)
+	large, sweep := d[8] == 1 || d[8] == 3, d[8] == 2 || d[8] == 3
+	var q *canvas.Path
+	msg := safe(func() { q = canvas.VerifXMonotoneEllipticArc(P{X: a.Sx, Y: a.Sy}, d[5], d[6], phi, large, sweep, P{X: a.Ex, Y: a.Ey}) })
+	fam := "xmono-arc"
+	if a.Large {
+		fam += "-large"
+	}
+	desc := map[string]interface{}{"arc": ref.String(), "panic": msg}
+	pt := func(x, y float64) string { return cq.Pt(x, y) }
+	if msg != "" || q == nil {
+		o.Emit(out.Case{I: i, Fam: fam, Coq: fmt.Sprintf("CXArc (Corr.C09.mkA %s 1 1 1 0 %s %s false false 0 nil nil true)", pt(0, 0), pt(0, 0), pt(0, 0)), Desc: desc, Tags: []string{"CXArc"}})
+		return
+	}
+	desc["go"] = q.String()
+	var ps []string
+	qd := q.Data()
+	// records: M, then arcs
+	prev := [2]float64{}
+	for k := 0; k < len(qd); {
+		switch qd[k] {
+		case canvas.MoveToCmd:
+			prev = [2]float64{qd[k+1], qd[k+2]}
+			k += 4
+		case canvas.ArcToCmd:
+			same := qd[k+1] == d[5] && qd[k+2] == d[6] && qd[k+3] == d[7]
+			lg, sw := qd[k+4] == 1 || qd[k+4] == 3, qd[k+4] == 2 || qd[k+4] == 3
+			ps = append(ps, fmt.Sprintf("(Corr.C09.mkAP %s %s %s %s %s 0)", b2s(same), b2s(lg), b2s(sw), pt(prev[0], prev[1]), pt(qd[k+5], qd[k+6])))
+			prev = [2]float64{qd[k+5], qd[k+6]}
+			k += 8
+		default:
+			ps = append(ps, fmt.Sprintf("(Corr.C09.mkAP false false false %s %s 0)", pt(0, 0), pt(0, 0)))
+			k = len(qd)
+		}
+	}
+	qn := func(n, dn int64) string {
+		if n < 0 {
+			return fmt.Sprintf("((-%d) # %d)", -n, dn)
+		}
+		return fmt.Sprintf("(%d # %d)", n, dn)
+	}
+	term := fmt.Sprintf("CXArc (Corr.C09.mkA %s %s %s %s %s %s %s %s %s 0 nil %s false)", pt(a.Cx, a.Cy), cq.F(a.Rx), cq.F(a.Ry), qn(a.CsN, a.H), qn(a.SnN, a.H),
+		pt(a.Sx, a.Sy), pt(a.Ex, a.Ey), b2s(a.Large), b2s(a.Sweep), cq.List(ps))
+	o.Emit(out.Case{I: i, Fam: fam, Coq: term, Desc: desc, Tags: []string{"CXArc"}})
 }
 
 func circleCase(o *out.W, i int, r *rng.R) {
